@@ -296,6 +296,12 @@ func typeName(t types.Type) string {
 	case *types.Pointer:
 		return "*" + typeName(tt.Elem())
 	case *types.Basic:
+		switch tt.Kind() {
+		case types.Uint8:
+			return "uint8" // byte is an alias
+		case types.Int32:
+			return "int32" // rune is an alias
+		}
 		return tt.Name()
 	case *types.Slice:
 		return "[]" + typeName(tt.Elem())
@@ -528,7 +534,7 @@ func (e *Enc) typeInv(t types.Type, v Val) []Term {
 	case *types.Slice:
 		base, off, ln, cp := v.Parts[0].T, v.Parts[1].T, v.Parts[2].T, v.Parts[3].T
 		out = append(out, app(SBool, "<=", IntLit(0), off), app(SBool, "<=", IntLit(0), ln), app(SBool, "<=", ln, cp),
-			app(SBool, "<=", cp, IntLitBig(intInfo{64, true}.max())),
+			app(SBool, "<=", cp, IntLitBig(new(big.Int).Lsh(big.NewInt(1), 48))), // finite memory: no slice exceeds the amd64 address space
 			Implies(Eq(base, TNull), And(Eq(ln, IntLit(0)), Eq(cp, IntLit(0)))))
 	case *types.Struct:
 		for i := 0; i < u.NumFields(); i++ {
